@@ -22,7 +22,8 @@ EXTENDS Naturals
 CONSTANTS Facet,      \* "svc" | "app" | "fs"
           PowDur,     \* node start-up / shut-down duration (ticks)
           FixDur,     \* software fixing duration
-          RestDur     \* service restart / file restore duration
+          RestDur,    \* service restart / file restore duration
+          InstDur     \* application install duration
 
 VARIABLES pw,   \* node power: "ON" "SD" "OFF" "BOOT"
           pc,   \* power countdown
@@ -51,23 +52,24 @@ Init == /\ pw = "ON" /\ pc = 0 /\ rs = FALSE
         /\ op = InitOp /\ oc = 0 /\ hs = "GOOD" /\ fc = 0 /\ act = "init"
 
 (* ---- the agent's request (only a node that is ON takes requests other than startup) ---- *)
-SvcReq(a) ==
-    CASE a = "node-service-stop"    /\ op \in {"RUNNING", "PAUSED"} -> [o |-> "STOPPED", c |-> 0, h |-> hs, f |-> fc]
-      [] a = "node-service-start"   /\ op = "STOPPED"  -> [o |-> "RUNNING", c |-> 0, h |-> hs, f |-> fc]
-      [] a = "node-service-pause"   /\ op = "RUNNING"  -> [o |-> "PAUSED", c |-> 0, h |-> hs, f |-> fc]
-      [] a = "node-service-resume"  /\ op = "PAUSED"   -> [o |-> "RUNNING", c |-> 0, h |-> hs, f |-> fc]
-      [] a = "node-service-restart" /\ op \in {"RUNNING", "PAUSED"} -> [o |-> "RESTARTING", c |-> RestDur, h |-> hs, f |-> fc]
-      [] a = "node-service-disable" /\ op # "DISABLED" -> [o |-> "DISABLED", c |-> 0, h |-> hs, f |-> fc]
-      [] a = "node-service-enable"  /\ op = "DISABLED" -> [o |-> "STOPPED", c |-> 0, h |-> hs, f |-> fc]
-      [] a = "node-service-fix"     /\ hs # "FIXING"   -> [o |-> op, c |-> oc, h |-> "FIXING", f |-> FixDur]
+SvcReq(a) ==   \* (service.py: the request validators and stop / start / pause / resume / restart / disable / enable / fix)
+    CASE a = "node-service-stop"    /\ op = "RUNNING"  -> [o |-> "STOPPED", c |-> oc, h |-> hs, f |-> fc]
+      [] a = "node-service-start"   /\ op = "STOPPED"  -> [o |-> "RUNNING", c |-> oc, h |-> hs, f |-> fc]
+      [] a = "node-service-pause"   /\ op = "RUNNING"  -> [o |-> "PAUSED", c |-> oc, h |-> hs, f |-> fc]
+      [] a = "node-service-resume"  /\ op = "PAUSED"   -> [o |-> "RUNNING", c |-> oc, h |-> hs, f |-> fc]
+      [] a = "node-service-restart" /\ op = "RUNNING"  -> [o |-> "RESTARTING", c |-> RestDur, h |-> hs, f |-> fc]
+      [] a = "node-service-disable"                     -> [o |-> "DISABLED", c |-> oc, h |-> hs, f |-> fc]
+      [] a = "node-service-enable"  /\ op = "DISABLED" -> [o |-> "STOPPED", c |-> oc, h |-> hs, f |-> fc]
+      [] a = "node-service-fix"     /\ op = "RUNNING" /\ hs \in {"GOOD", "COMPROMISED"}
+                                                        -> [o |-> op, c |-> oc, h |-> "FIXING", f |-> FixDur]
       [] OTHER -> [o |-> op, c |-> oc, h |-> hs, f |-> fc]
 
-AppReq(a) ==
-    CASE a = "node-application-execute" /\ op = "CLOSED"  -> [o |-> "RUNNING", c |-> 0, h |-> hs, f |-> fc]
-      [] a = "node-application-close"   /\ op = "RUNNING" -> [o |-> "CLOSED", c |-> 0, h |-> hs, f |-> fc]
-      [] a = "node-application-fix"     /\ op # "ABSENT" /\ hs # "FIXING" -> [o |-> op, c |-> oc, h |-> "FIXING", f |-> FixDur]
+AppReq(a) ==   \* (application.py: scan / close / fix need a RUNNING application; install / remove at the node)
+    CASE a = "node-application-close"   /\ op = "RUNNING" -> [o |-> "CLOSED", c |-> oc, h |-> hs, f |-> fc]
+      [] a = "node-application-fix"     /\ op = "RUNNING" /\ hs \in {"GOOD", "COMPROMISED"}
+                                                           -> [o |-> op, c |-> oc, h |-> "FIXING", f |-> FixDur]
       [] a = "node-application-remove"  /\ op # "ABSENT"  -> [o |-> "ABSENT", c |-> 0, h |-> "GOOD", f |-> 0]
-      [] a = "node-application-install" /\ op = "ABSENT"  -> [o |-> "INSTALLING", c |-> RestDur, h |-> "GOOD", f |-> 0]
+      [] a = "node-application-install" /\ op = "ABSENT"  -> [o |-> "INSTALLING", c |-> InstDur, h |-> "GOOD", f |-> 0]
       [] OTHER -> [o |-> op, c |-> oc, h |-> hs, f |-> fc]
 
 FsReq(a) ==
@@ -88,12 +90,17 @@ Compromise == IF Facet = "fs" THEN (IF op = "PRESENT" THEN "CORRUPT" ELSE hs)
 
 (* ---- one tick, applied to the state (p, c, r) of the node and (o, k, h, f) of the component ---- *)
 Dec(x) == IF x > 0 THEN x - 1 ELSE 0
-OffOp(o) == CASE Facet = "svc" /\ o \in {"RUNNING", "PAUSED", "RESTARTING"} -> "STOPPED"
-              [] Facet = "app" /\ o \in {"RUNNING", "INSTALLING"} -> "CLOSED"
+\* the node reaches OFF: services are stopped, applications closed (a restart / an installation in flight is left as it is)
+OffOp(o) == CASE Facet = "svc" /\ o \in {"RUNNING", "PAUSED"} -> "STOPPED"
+              [] Facet = "app" /\ o = "RUNNING" -> "CLOSED"
               [] OTHER -> o
-BootOp(o) == CASE Facet = "svc" /\ o = "STOPPED" -> "RUNNING"     \* services are started when the node comes up
+\* the node reaches ON: stopped services are started, closed applications run
+BootOp(o) == CASE Facet = "svc" /\ o = "STOPPED" -> "RUNNING"
+               [] Facet = "app" /\ o = "CLOSED" -> "RUNNING"
                [] OTHER -> o
-TimedOp(o, k) == CASE o = "RESTARTING" /\ k <= 1 -> "RUNNING"
+BootHs(o, h) == IF o \in {"STOPPED", "CLOSED"} /\ h = "UNUSED" THEN "GOOD" ELSE h
+\* a countdown set to d: the restart completes on the tick that finds it at 0, the installation on the tick that takes it to 0
+TimedOp(o, k) == CASE o = "RESTARTING" /\ k = 0 -> "RUNNING"
                    [] o = "INSTALLING" /\ k <= 1 -> "RUNNING"
                    [] OTHER -> o
 
@@ -109,22 +116,30 @@ Step(a) ==
         c1  == IF p1 # pw THEN PowDur ELSE pc
         r1  == IF a = "node-reset" /\ on THEN TRUE ELSE IF p1 # pw THEN FALSE ELSE rs
         \* the tick
-        p2  == CASE p1 = "SD"   /\ c1 <= 1 -> (IF r1 THEN "BOOT" ELSE "OFF")
-                 [] p1 = "BOOT" /\ c1 <= 1 -> "ON"
+        \* (a countdown set to d is decremented d times and the transition completes on the tick after: d + 1 ticks)
+        p2  == CASE p1 = "SD"   /\ c1 = 0 -> (IF r1 THEN "BOOT" ELSE "OFF")
+                 [] p1 = "BOOT" /\ c1 = 0 -> "ON"
                  [] OTHER -> p1
         c2  == IF p2 # p1 THEN (IF p2 = "BOOT" THEN PowDur ELSE 0) ELSE Dec(c1)
-        o1  == IF p1 = "SD" /\ p2 # "SD" THEN OffOp(q.o) ELSE IF p1 = "BOOT" /\ p2 = "ON" THEN BootOp(q.o) ELSE q.o
-        live == p1 = "ON"
+        off == p1 = "SD" /\ p2 # "SD"                     \* the node passes through OFF in this tick
+        on2 == (p1 = "BOOT" /\ p2 = "ON")                   \* the node comes up in this tick
+        o0  == IF off THEN OffOp(q.o) ELSE q.o
+        o1  == IF on2 THEN BootOp(o0) ELSE o0
+        h0  == IF on2 THEN BootHs(o0, h1) ELSE h1
+        live == p2 = "ON"                                   \* software gets this tick iff the node is ON after its power step
+        ticking == live /\ (Facet = "fs" \/ o1 \in {"RESTARTING", "INSTALLING"})
         o2  == IF live THEN TimedOp(o1, q.c) ELSE o1
-        k2  == IF live THEN Dec(q.c) ELSE q.c
-        f2  == IF live /\ h1 = "FIXING" THEN Dec(q.f) ELSE q.f
-        h2  == IF live /\ h1 = "FIXING" /\ q.f <= 1 THEN "GOOD" ELSE h1
-    IN  /\ pw' = p2 /\ pc' = c2 /\ rs' = (r1 /\ p2 # "ON")
+        k2  == IF ticking THEN Dec(q.c) ELSE q.c
+        fixing == live /\ h0 = "FIXING" /\ o1 # "ABSENT"
+        f2  == IF fixing THEN (IF q.f <= 1 THEN 0 ELSE q.f - 1) ELSE q.f
+        h2  == IF fixing /\ q.f <= 1 THEN "GOOD"
+               ELSE IF live /\ o1 = "INSTALLING" /\ q.c <= 1 THEN "GOOD" ELSE h0
+    IN  /\ pw' = p2 /\ pc' = c2 /\ rs' = (r1 /\ p2 = "SD")
         /\ op' = o2 /\ oc' = k2 /\ hs' = h2 /\ fc' = f2 /\ act' = a
 
 Next == \E a \in Acts : Step(a)
 Spec == Init /\ [][Next]_vars
 
 TypeOK == /\ pw \in {"ON", "SD", "OFF", "BOOT"} /\ pc \in 0..PowDur /\ rs \in BOOLEAN
-          /\ oc \in 0..RestDur /\ fc \in 0..FixDur
+          /\ oc \in 0..(RestDur + InstDur) /\ fc \in 0..FixDur
 =============================================================================
